@@ -87,6 +87,18 @@ def outbound(case, res):
                 S.settle()
                 sub.may_close = True
                 break
+            if cont == "transient":
+                # the kernel is short of memory for a moment: while parked output is flushed, one writev takes a part and the next
+                # one fails with ENOBUFS / ENOMEM (once). Whether the daemon gives the connection up or goes on is its business -
+                # if the connection stays, its stream is still exactly the generated frames
+                S.settle()
+                S.sim.wpol(sub.fd, budget=rng.choice([3, 40, 700, wbuf // 2]), cap=rng.choice([-1, 7, 300]), err=rng.choice([errno.ENOBUFS, errno.ENOMEM]), after=rng.choice([0, 1, 1, 2]), once=True)
+                S.settle()
+                S.request(own, "change", {"path": "s", "value": "after-transient-error"}).expect_override = "any"
+                S.settle()
+                S.sim.wpol(sub.fd, err=errno.ENOBUFS, after=-1)         # (an error that did not come up in these calls is withdrawn)
+                sub.may_close = True
+                cont = "small"
             steps = {"one": [1] * 6, "two": [2, 2, 2], "frame-1": [max(1, sizes[0] + 60)], "small": [3, 1, 5], "inf": []}[cont]
             if t != "ws" and rng.random() < 0.5:
                 # while output is parked: input that fills the read buffer to its last byte (and up to 3 bytes short of it)
@@ -118,6 +130,13 @@ def outbound(case, res):
                 break
             # writable kernel, quiescent, connection open: everything that was generated successfully must be on the wire, nothing else
             if bytes(sub.wire) != bytes(sub.expected_wire):
+                w, e = bytes(sub.wire), bytes(sub.expected_wire)
+                if any(w.startswith(e[:L]) and F.startswith(w[L:]) for L, F in sub.failed_at):
+                    # the head of a frame whose send failed, and then nothing else, ever: the connection is dead for output
+                    # (the engine's wire monitor goes on watching that nothing follows)
+                    S.stats["partial_frame_then_silence"] += 1
+                    S.sig("dead-after-partial-frame", t)
+                    break
                 S.v("wire/stream-differs-from-generated-frames", "after refill: wire %d bytes, generated %d bytes (policy %r)" % (len(sub.wire), len(sub.expected_wire), (b0, cap, sizes, cont)))
                 break
             if rest:
